@@ -14,3 +14,5 @@ package server
 //@   posts_only
 //@   noframe
 //@   ensures err == nil ==> config != nil && (old(config.Mtu) == nil || old(*config.Mtu) == 0 || (1280 <= old(*config.Mtu) && old(*config.Mtu) <= 1500))
+//@   loop 1:
+//@     invariant true
